@@ -321,7 +321,14 @@ impl Interval {
         } else {
             let stride = match (self.stride, other.stride) {
                 (0, _) => other.stride,
-                (_, 0) => self.stride << other.bytesize().as_bit_length(),
+                (_, 0) => {
+                    let shift = other.bytesize().as_bit_length() as u32;
+                    match (self.stride as u128) << shift {
+                        stride if stride <= u64::MAX as u128 => stride as u64,
+                        // The exact stride is not representable: use a power of two dividing it.
+                        _ => 1u64 << std::cmp::min(63, self.stride.trailing_zeros() + shift),
+                    }
+                }
                 _ => 1u64 << other.stride.trailing_zeros(),
             };
             Interval {
